@@ -4,6 +4,7 @@
 pub mod alloc;
 pub mod ctx;
 pub mod fixtures;
+pub mod fuzz;
 pub mod known;
 pub mod marker;
 pub mod panics;
